@@ -10,5 +10,7 @@ pub mod stubs;
 
 pub mod adapt;
 pub mod c02;
+pub mod c03;
+pub mod c12;
 
 pub use gen::tables;
